@@ -87,3 +87,115 @@ def ob_nonunique_conflict(level_a: int, level_b: int, same_name: bool, cls_i: in
 
 def confirm_nonunique_conflict(level_a, level_b, same_name, cls_i):
     return not _nonunique_conflict(level_a, level_b, same_name, cls_i)
+
+
+# ------------------------------------------------------------------ conflicts that only exist after embedding
+def _mk_mw(i, phase, name):
+    """a fresh unique middleware type offering `name` in the given phase (0 request, 1 endpoint, 2 render)"""
+    attrs = {}
+    if phase == 0:
+        attrs['provides'] = (name,)
+        attrs['request'] = lambda self, next: next(**{name: 'mw%d' % i})
+    elif phase == 1:
+        attrs['endpoint_provides'] = (name,)
+        attrs['endpoint'] = lambda self, next: next(**{name: 'mw%d' % i})
+    else:
+        attrs['render_provides'] = (name,)
+        attrs['render'] = lambda self, next: next(**{name: 'mw%d' % i})
+    return type('Src%d_%d' % (i, phase), (Middleware,), attrs)()
+
+
+NSRC = 12
+_RES_KINDS = (0, 5, 10)
+_URL_KINDS = (4, 11)
+
+
+def _embedded_conflict(a, b, same_name, depth2):
+    """sources: 0 outer resource, 1-3 outer middleware (request/endpoint/render provides), 4 URL binding in the embedding
+    prefix, 5 inner application resource, 6-8 inner application middleware, 9 inner route middleware, 10 inner route
+    resource, 11 URL binding of the inner route.  Two different sources offering one name is a NameError wherever they
+    sit; resources of different levels are ONE source (they override), as are different names."""
+    if a == b or (a in _URL_KINDS and b in _URL_KINDS):
+        return True
+    names = {a: 'k', b: 'k' if same_name else 'other'}
+    outer_res, inner_res, route_res = {}, {}, {}
+    outer_mws, inner_mws, route_mws = [], [], []
+    prefix, patt = '/p', '/x'
+    for i, src in enumerate((a, b)):
+        n = names[src]
+        if src == 0:
+            outer_res[n] = 'outer'
+        elif src in (1, 2, 3):
+            outer_mws.append(_mk_mw(i, src - 1, n))
+        elif src == 4:
+            prefix = '/p/<%s>' % n
+        elif src == 5:
+            inner_res[n] = 'inner'
+        elif src in (6, 7, 8):
+            inner_mws.append(_mk_mw(i, src - 6, n))
+        elif src == 9:
+            route_mws.append(_mk_mw(i, 0, n))
+        elif src == 10:
+            route_res[n] = 'route'
+        else:
+            patt = '/x/<%s>' % n
+    expect_conflict = bool(same_name) and not (a in _RES_KINDS and b in _RES_KINDS)
+    try:
+        route = Route(patt, lambda: Response('x'), middlewares=route_mws, resources=route_res)
+        inner = Application([route], middlewares=inner_mws, resources=inner_res)
+        if depth2:
+            inner = Application([('/mid', inner)])
+        Application([(prefix, inner)], middlewares=outer_mws, resources=outer_res)
+    except NameError:
+        return expect_conflict
+    return not expect_conflict
+
+
+def ob_embedded_conflict(a: int, b: int, same_name: bool, depth2: bool) -> bool:
+    with untraced():
+        return _embedded_conflict(a, b, same_name, depth2)
+
+
+def confirm_embedded_conflict(a, b, same_name, depth2):
+    return not _embedded_conflict(a, b, same_name, depth2)
+
+
+# ------------------------------------------------------------------ hooks set per INSTANCE (as ContextProcessor does)
+class InstanceHooks(Middleware):
+    """one class, hook functions chosen per instance"""
+    def __init__(self, phase, bad):
+        if bad == 0:
+            fn = lambda next: next()
+        elif bad == 1:
+            fn = lambda request, next: next()          # `next` is not the first parameter
+        else:
+            fn = lambda request: Response('no next at all')
+        setattr(self, ('request', 'endpoint', 'render')[phase], fn)
+
+
+def _instance_hooks(ngood, phase, bad, level):
+    """after `ngood` well-formed instances of the class have been accepted (other applications), an instance whose hook
+    does not take `next` first is still rejected with TypeError - at application, embedded-application or route level"""
+    for i in range(ngood):
+        Application([('/g%d' % i, lambda: Response('g'))], middlewares=[InstanceHooks(i % 3, 0)])
+    mw = InstanceHooks(phase, bad)
+    try:
+        if level == 0:
+            Application([('/', lambda: Response('x'))], middlewares=[mw])
+        elif level == 1:
+            Application([Route('/', lambda: Response('x'), middlewares=[mw])])
+        else:
+            inner = Application([('/', lambda: Response('x'))])
+            Application([('/p', inner)], middlewares=[mw])
+    except TypeError:
+        return bad != 0
+    return bad == 0
+
+
+def ob_instance_hooks(ngood: int, phase: int, bad: int, level: int) -> bool:
+    with untraced():
+        return _instance_hooks(ngood, phase, bad, level)
+
+
+def confirm_instance_hooks(ngood, phase, bad, level):
+    return not _instance_hooks(ngood, phase, bad, level)
